@@ -678,7 +678,56 @@ pub mod ffi {
 }
 """
 
-SHAPE_GROUPS = {"attrs": ATTRS, "cyc": CYC, "lts": LTS, "multi": MULTI, "ns": NS, "ren": REN, "zst": ZST}
+# special methods on by-value receivers: the C++ backend derives operators from them (comparison: six `const` operators calling the
+# comparator; arithmetic: compound assignment) and has to declare the underlying method so that those compile
+SPECIAL = """#[diplomat::bridge]
+pub mod ffi {
+    #[diplomat::attr(not(supports = comparators), disable)]
+    pub struct SpVer { pub major: u8, pub minor: u8 }
+    impl SpVer {
+        #[diplomat::attr(auto, comparison)]
+        pub fn cmp(self, other: SpVer) -> core::cmp::Ordering { self.major.cmp(&other.major).then(self.minor.cmp(&other.minor)) }
+        pub fn is_zero(self) -> bool { self.major == 0 }
+    }
+    #[diplomat::attr(not(supports = comparators), disable)]
+    pub enum SpLevel { Low, Mid, High }
+    impl SpLevel {
+        #[diplomat::attr(auto, comparison)]
+        pub fn cmp(self, other: SpLevel) -> core::cmp::Ordering { (self as u8).cmp(&(other as u8)) }
+    }
+    #[diplomat::opaque]
+    #[diplomat::attr(not(supports = comparators), disable)]
+    pub struct SpOp(pub u8);
+    impl SpOp {
+        #[diplomat::attr(auto, comparison)]
+        pub fn cmp(&self, other: &SpOp) -> core::cmp::Ordering { self.0.cmp(&other.0) }
+    }
+    #[diplomat::attr(not(supports = arithmetic), disable)]
+    pub struct SpVec { pub x: i32 }
+    impl SpVec {
+        #[diplomat::attr(auto, add)]
+        pub fn add(self, o: SpVec) -> SpVec { SpVec { x: self.x + o.x } }
+        #[diplomat::attr(auto, sub)]
+        pub fn sub(self, o: SpVec) -> SpVec { SpVec { x: self.x - o.x } }
+    }
+}
+"""
+
+# shapes the documented gate refuses on the unchanged tree (so nothing is generated and nothing judged); should a backend accept
+# them, what it emits must still build.  A field-less struct outside Result / Option: returned, taken, in a callback.
+ZST_DIRECT = """#[diplomat::bridge]
+pub mod ffi {
+    pub struct ZdReady {}
+    #[diplomat::opaque]
+    pub struct ZdOp;
+    impl ZdOp {
+        pub fn ready(&self) -> ZdReady { ZdReady {} }
+    }
+}
+"""
+
+SHAPE_GROUPS = {"attrs": ATTRS, "cyc": CYC, "lts": LTS, "multi": MULTI, "ns": NS, "ren": REN, "special": SPECIAL, "zst": ZST}
+GATE_OPTIONAL_GROUPS = {"zstdirect": ZST_DIRECT}
 # groups that a backend may refuse (not counted as an accepted module there)
 OPTIONAL_GROUPS = {"dis_%s_%s" % (k, l): _dis_source(k, l) for k in ("st", "en", "op") for l in ("c", "cpp", "js")}
 # `use crate::ma::..` in MULTI is resolved by rustc through these re-exports at the crate root (the tool sees multi.rs as root)
